@@ -271,6 +271,9 @@ def run_ip(c):
     node = IPReservoir(c["units"], activation=c["activation"], mu=ff(c["mu"]), sigma=ff(c["sigma"]),
                        learning_rate=ff(c["eta"]), epochs=c["epochs"], lr=ff(c["lr"]),
                        W=farr(c["W"]), Win=farr(c["Win"]), bias=farr([[v] for v in c["bias"]]), name=uname("ip"))
+    start = None
+    if c.get("copy"):                     # directed probe: the fitted node is a Node.copy() of the one built above
+        node, start = _ip_copy(node, c)
     rec = []
     orig = node._forward
 
@@ -283,7 +286,7 @@ def run_ip(c):
     node._forward = fwd
     X = [farr(s) for s in c["seqs"]]
     node.fit(X if len(X) > 1 else X[0], warmup=c["warmup"])
-    return {"rec": rec, "a": np.array(node.a).ravel().tolist(), "b": np.array(node.b).ravel().tolist()}
+    return {"rec": rec, "a": np.array(node.a).ravel().tolist(), "b": np.array(node.b).ravel().tolist(), "start": start}
 
 
 def run_impl(c):
@@ -541,6 +544,8 @@ def _judge_ip(c):
     lr, mu, sigma, eta = ff(c["lr"]), ff(c["mu"]), ff(c["sigma"]), ff(c["eta"])
     u_ = c["units"]
     a, b, s, r = np.ones(u_), np.zeros(u_), np.zeros(u_), np.zeros(u_)
+    if o.get("start"):                    # a copy of an initialised / fitted node goes on from the gains and states it was copied with
+        a, b, s, r = (np.array(v, dtype=float) for v in o["start"])
     w = c["warmup"]
     order = [(False, u) for seq in c["seqs"] for u in seq[:w]] + \
             [(True, u) for _ in range(c["epochs"]) for seq in c["seqs"] for u in seq[w:]]
@@ -656,9 +661,124 @@ def _judge_teacher(c):
     return None
 
 
+# ---- directed probes: the learning rules on a node obtained by Node.copy()
+def gen_lms_copy(rng, i):
+    """LMS / FORCE(rule='lms') built with a list / ndarray schedule, copied (before any training, or after `pre` updates of the original),
+    then original (who=0) and copy (who=1) trained on different data in alternation"""
+    idim, odim = rng.randint(1, 3), rng.randint(1, 2)
+    npre = [0, rng.randint(1, 3)][(i // 4) % 2]
+    first = rng.randint(0, 1)
+    turns = [{"who": (first + j) % 2, "X": None, "Y": None, "T": rng.randint(1, 3)} for j in range(4)]
+    for t in turns:
+        T = t.pop("T")
+        t["X"], t["Y"] = rows(rng, T, idim, 2, 2), rows(rng, T, odim, 4, 2)
+    sch = []
+    while len(sch) < npre + sum(len(t["X"]) for t in turns) + 2:
+        v = rng.choice([Fraction(1, 8), Fraction(1, 16), Fraction(1, 32), Fraction(3, 32), Fraction(1, 64)])
+        if not sch or v != sch[-1]:
+            sch.append(v)
+    return {"kind": "lms-copy", "cls": ["LMS", "FORCE"][i % 2], "form": ["list", "ndarray"][(i // 2) % 2], "bias": rng.random() < 0.6,
+            "idim": idim, "odim": odim, "alpha": sch, "turns": turns,
+            "pre": {"X": rows(rng, npre, idim, 2, 2), "Y": rows(rng, npre, odim, 4, 2)} if npre else None}
+
+
+def copy_cases(rng, reps=1):
+    out = [gen_lms_copy(rng, i) for i in range(8 * reps)]
+    for i in range(2 * reps):
+        for how in ("initialised", "fitted", "fresh"):
+            c = gen_ip(rng, 4 * i)            # i even: tanh, i odd: sigmoid
+            c["copy"] = how
+            if how == "fitted":
+                c["pre"] = rows(rng, rng.randint(2, 4), c["idim"], 4, 2)
+            out.append(c)
+    return out
+
+
+def _lms_steps(c, w, cur, X, Y):
+    """the explicit exact LMS loop of _judge_readout (learn_every = 1) from weights w and schedule cursor cur"""
+    n, m = c["idim"] + (1 if c["bias"] else 0), c["odim"]
+    for x, y in zip(X, Y):
+        r = aug(c, x)
+        y = [Fraction(v) for v in y]
+        pred = [sum(r[a] * w[a][j] for a in range(n)) for j in range(m)]
+        al = Fraction(c["alpha"][cur])
+        cur += 1
+        w = [[w[a][j] - al * (pred[j] - y[j]) * r[a] for j in range(m)] for a in range(n)]
+    return w, cur
+
+
+def _judge_lms_copy(c):
+    rpy()
+    from reservoirpy.nodes import FORCE, LMS
+    key = "lms:schedule-shared-with-copy"
+    n, m = c["idim"] + (1 if c["bias"] else 0), c["odim"]
+    sched = [ff(v) for v in c["alpha"]]
+    alpha_arg = sched if c["form"] == "list" else np.array(sched)
+    desc = "%s(alpha=<%s of %d rates>%s)" % (c["cls"], c["form"], len(sched), ", rule='lms'" if c["cls"] == "FORCE" else "")
+
+    def weights(node):
+        if node.Wout is None:
+            return [[0.0] * m for _ in range(n)]
+        return (np.r_[np.asarray(node.bias).reshape(1, -1), np.asarray(node.Wout)] if c["bias"] else np.asarray(node.Wout)).tolist()
+    try:
+        if c["cls"] == "FORCE":
+            with warnings.catch_warnings():
+                warnings.simplefilter("ignore")
+                node = FORCE(alpha=alpha_arg, rule="lms", input_bias=c["bias"], name=uname("cpforce"))
+        else:
+            node = LMS(alpha=alpha_arg, input_bias=c["bias"], name=uname("cplms"))
+        w, cur = [[Fraction(0)] * m for _ in range(n)], 0
+        if c["pre"]:
+            node.train(farr(c["pre"]["X"]), farr(c["pre"]["Y"]))
+            w, cur = _lms_steps(c, w, cur, c["pre"]["X"], c["pre"]["Y"])
+        twin = node.copy(name=uname("cptwin"))
+        nodes, ref = [node, twin], [(w, cur), (w, cur)]     # the copy holds the weights and the place in the schedule it was copied with
+        for ti, t in enumerate(c["turns"]):
+            k = t["who"]
+            nodes[k].train(farr(t["X"]), farr(t["Y"]))
+            ref[k] = _lms_steps(c, ref[k][0], ref[k][1], t["X"], t["Y"])
+            for j in (0, 1):
+                exp = [[float(v) for v in row] for row in ref[j][0]]
+                got = weights(nodes[j])
+                if not close(got, exp):
+                    return _viol(key, "%s, copied with Node.copy() %s, original and copy then trained in alternation: after turn %d (training of the %s) "
+                                 "the weights of the %s are not w - alpha_k*(pred-target)*x~ with the schedule consumed once per update of THAT node "
+                                 "(%d updates so far)" % (desc, "after %d updates" % len(c["pre"]["X"]) if c["pre"] else "before any training", ti,
+                                                          ["original", "copy"][k], ["original", "copy"][j], ref[j][1]), c, exp, got)
+    except Exception as e:  # noqa: BLE001
+        return _viol(key, "%s copied with Node.copy(), original and copy trained in alternation: raises %r" % (desc, e), c)
+    return None
+
+
+def _ip_copy(node, c):
+    """the node that run_ip fits: a Node.copy() of a fresh / an initialised / an already fitted IPReservoir.  Returns the copy and the
+    (a, b, internal_state, state) it starts from (None: not initialised yet, i.e. a = 1, b = 0, zero states)"""
+    if c["copy"] == "initialised":
+        node.initialize(farr(c["seqs"][0])[:1])
+    elif c["copy"] == "fitted":
+        node.fit(farr(c["pre"]))
+    twin = node.copy(name=uname("iptwin"))
+    if not twin.is_initialized:
+        return twin, None
+    return twin, [np.array(v, dtype=float).ravel().tolist() for v in (twin.a, twin.b, twin.internal_state, twin.state())]
+
+
+def _judge_ip_copy(c):
+    v = _judge_ip(c)
+    if v:
+        v = dict(v, key="ip:copy-uses-original-gains",
+                 what="IPReservoir obtained by Node.copy() of %s node, then fitted (the explicit IP loop starts from the gains / states of the copy): [%s] %s"
+                      % ({"fresh": "a never-run", "initialised": "an initialised", "fitted": "a fitted"}[c["copy"]], v["key"], v["what"]))
+    return v
+
+
 def _judge(c):
     if c["kind"] == "teacher":
         return _judge_teacher(c)
+    if c["kind"] == "lms-copy":
+        return _judge_lms_copy(c)
+    if c["kind"] == "ip" and c.get("copy"):
+        return _judge_ip_copy(c)
     if c["kind"] == "ip":
         return _judge_ip(c)
     v = _judge_readout(c)
@@ -682,6 +802,7 @@ def oracle(ctx, scale=1):
             Y = [y for call in c["calls"] if not call.get("fail") for y in call["Y"]]
             extra.append(dict(c, calls=[{"X": [x], "Y": [y]} for x, y in zip(X, Y)]))
     extra += [gen_teacher(rng, i) for i in range(ctx.n(16, 120) * scale)]
+    extra += copy_cases(ctx.rng("oracle-copy"), ctx.n(1, 4))
     out, dist = [], {}
     for c in cases + extra:
         dist[c["kind"]] = dist.get(c["kind"], 0) + 1
@@ -693,7 +814,9 @@ def oracle(ctx, scale=1):
                     "train call (and after every single step); explicit exact LMS loop with a counted schedule; a raising train call (targets forgotten, wrong widths) leaves Wout/bias/P and the schedule cursor unchanged and the later updates use the right schedule entries; learn_every gate "
                     "i%k==0 and pre-update outputs by an explicit loop; explicit numpy IP loop vs IPReservoir.fit (a, b) and y=f(a*x+b); Model-level: (Input|Reservoir)>>readout trained by successive Model.train calls "
                     "(learn_every>1, lengths not multiples of it, one-step calls) judged like the node on the observed features; alpha / rate generator "
-                    "changed between construction and first use; Model.train with a teacher node failing part-way then trained on an array"}
+                    "changed between construction and first use; Model.train with a teacher node failing part-way then trained on an array; "
+                    "nodes obtained by Node.copy(): LMS / FORCE(lms) with a list / ndarray schedule copied (fresh or after some updates) and both trained in "
+                    "alternation (explicit loop per node, own schedule cursor); IPReservoir copied fresh / initialised / fitted, then fitted (explicit IP loop)"}
 
 
 def replay(payload):
